@@ -56,6 +56,8 @@ impl<'a> ZoneWriter<'a> {
         // Write .zones metadata (delegated, async)
         let metadata_writer = ZoneMetadataWriter::new(self.uid, self.segment_dir);
         metadata_writer.write_async(zone_plans).await?;
+        #[cfg(feature = "verif-hooks")]
+        crate::verif_hooks::point("zw.meta", zone_plans.len() as u64);
 
         // Write .col files
         let mut writer = ColumnWriter::new(self.segment_dir.to_path_buf(), self.registry.clone());
@@ -70,6 +72,8 @@ impl<'a> ZoneWriter<'a> {
             );
         }
         writer.write_all(zone_plans).await?;
+        #[cfg(feature = "verif-hooks")]
+        crate::verif_hooks::point("zw.columns", zone_plans.len() as u64);
 
         // Build plan: decide which indexes to build per field/global
         let schema = self
@@ -264,6 +268,8 @@ impl<'a> ZoneWriter<'a> {
             }
         }
 
+        #[cfg(feature = "verif-hooks")]
+        crate::verif_hooks::point("zw.filters", zone_plans.len() as u64);
         // Build and write index
         if tracing::enabled!(tracing::Level::DEBUG) {
             debug!(
@@ -289,6 +295,8 @@ impl<'a> ZoneWriter<'a> {
             );
         }
         index.write_to_path_async(index_path).await?;
+        #[cfg(feature = "verif-hooks")]
+        crate::verif_hooks::point("zw.index", zone_plans.len() as u64);
 
         // Write index catalog (.icx) if plan exists
         if let Some(plan) = build_plan.clone() {
@@ -309,6 +317,8 @@ impl<'a> ZoneWriter<'a> {
             }
         }
 
+        #[cfg(feature = "verif-hooks")]
+        crate::verif_hooks::point("zw.catalog", zone_plans.len() as u64);
         if tracing::enabled!(tracing::Level::INFO) {
             info!(
                 target: "sneldb::flush",
